@@ -38,15 +38,16 @@ def table(style, par, with_low, unsorted=False):
             ("parx", pref + "X", 100_000), ("y", pref + "Y", 20_000_000), ("pary", pref + "Y", 100_000), ("mito", pref + "M" if style else "MT", 1000),
             ("unplaced", (pref + "Un_gl000220") if style else "GL000220.1", 1000)]
     if with_low:
-        spec.insert(2, ("low", pref + "1", 7_000_000))
+        spec.insert(2, ("low", pref + "1", 7_000_000))         # placeholder log2, depth 0
+        spec.insert(3, ("low2", pref + "1", 8_000_000))        # placeholder log2, a tiny but non-zero depth: still a null-coverage bin
     if unsorted:
         spec.append(spec.pop(1))
     for nm, chrom, start in spec:
-        if nm == "low":
-            lg = Term.sym("v_low", -INF, -16)
+        if nm in ("low", "low2"):
+            lg = Term.sym(f"v_{nm}", -INF, -16)
         else:
             lg = Term.sym(f"v_{nm}", -10, 10)
-        rows.append(dict(chromosome=chrom, start=start, end=start + 1000, gene="g", log2=lg, depth=(0 if nm == "low" else Term.sym(f"d_{nm}", 1, INF))))
+        rows.append(dict(chromosome=chrom, start=start, end=start + 1000, gene="g", log2=lg, depth=(0 if nm == "low" else Term.sym(f"d_{nm}", Fr(1, 10 ** 6), INF, positive=True))))
         names.append(nm)
     g = make_ga("CopyNumArray", rows, {"sample_id": "S"}, index="any", exact=True)
     return g, names
@@ -73,11 +74,11 @@ def d1(chk, prog):
         after = g.data.cols["log2"].v
         shifts = [t_sub(T(a), T(b)) for a, b in zip(after, before)]
         uniform = all(same(s, shifts[0]) for s in shifts)
-        used = [nm for nm in names if nm in ("a1", "a1b", "a2") or (nm == "parx" and par) or (nm == "low" and not skip_low)]
+        used = [nm for nm in names if nm in ("a1", "a1b", "a2") or (nm == "parx" and par) or (nm in ("low", "low2") and not skip_low)]
         order = {nm: i for i, nm in enumerate(names)}
         sym = {nm: before[names.index(nm)] for nm in names}
         if by_chrom:
-            groups = [[nm for nm in used if nm in ("a1", "a1b", "low")], [nm for nm in used if nm == "a2"]] + ([["parx"]] if par else [])
+            groups = [[nm for nm in used if nm in ("a1", "a1b", "low", "low2")], [nm for nm in used if nm == "a2"]] + ([["parx"]] if par else [])
             groups = [sorted(grp, key=order.get) for grp in groups]          # one group per chromosome name, rows in table order
             want_calls = [[sym[n] for n in grp] for grp in groups]
             ok_calls = len(calls) == len(want_calls) + 1 and all(len(c) == len(w) and all(same(a, b) for a, b in zip(c, w)) for c, w in zip(calls, want_calls)) \
@@ -183,7 +184,31 @@ def d3(chk, prog):
             continue
         want = None if verdict is None else (not verdict)
         tb2.cell(out[1] is want and seen == [(hap, par)], dict(maleness_verdict=verdict, got=out[1], want=want, called_with=seen))
-    tb2.done("guess_xx is not the negation of the maleness verdict")
+    # history: asked twice on one array (another reference sex, changed values) the second answer follows the second verdict, and the array's metadata is not extended
+    for first, second in itertools.product([True, False], [True, False]):
+        W.reset()
+        model = Model()
+        verdicts = [first, second]
+        calls = []
+
+        def cmp2(it, obj, is_haploid_x_reference=False, diploid_parx_genome=None, skip_low=False, verdicts=verdicts, calls=calls):
+            calls.append((is_haploid_x_reference, diploid_parx_genome))
+            return verdicts[min(len(calls) - 1, 1)], {"chrx_ratio": 0, "chry_ratio": 0, "chrx_male_lr": 1, "chry_male_lr": 1}
+        model.method_prims["compare_sex_chromosomes"] = cmp2
+        it = Interp(prog, model)
+        g = cna(CLS5, "chr")
+        meta_before = dict(g.meta)
+
+        def twice():
+            a = it.run_method(g, "guess_xx", [False, None, False])
+            b = it.run_method(g, "guess_xx", [True, "grch38", False])
+            return a, b
+        out = tb2.guard(twice, f"two calls, verdicts {first} then {second}")
+        if out is None:
+            continue
+        tb2.cell(out[0] is (not first) and out[1] is (not second) and calls == [(False, None), (True, "grch38")] and g.meta == meta_before,
+                 dict(verdicts=[first, second], answers=list(out), want=[not first, not second], compare_calls=calls, metadata_keys_added=sorted(set(g.meta) - set(meta_before))))
+    tb2.done("guess_xx is not the negation of the maleness verdict (of this call: its own reference sex, the array's current values)")
 
     fs = prog.fn("cnvlib.commands.do_sex")
     tb3 = Table(chk, "x-adjustment", "sex report prints Male <=> maleness verdict", fs.loc(), fs.qn)
@@ -251,6 +276,8 @@ def run(chk):
 
 _C = "cnvlib/cnary.py"
 MUTANTS = [
+    dict(name="seeded C15e: guess_xx memoised in the array's metadata", file="cnvlib/cnary.py", old="        is_xy, stats = self.compare_sex_chromosomes(is_haploid_x_reference, diploid_parx_genome)\n        if is_xy is None:\n            return None\n", new="        if \"is_xx\" in self.meta:\n            return self.meta[\"is_xx\"]\n        is_xy, stats = self.compare_sex_chromosomes(is_haploid_x_reference, diploid_parx_genome)\n        if is_xy is None:\n            return None\n        self.meta[\"is_xx\"] = ~is_xy\n"),
+    dict(name="seeded C15f: null-coverage bins by depth alone when a depth column exists", file="cnvlib/cnary.py", old="        drop_idx = self.data[\"log2\"] < min_cvg\n        if \"depth\" in self:\n            drop_idx |= self.data[\"depth\"] == 0\n", new="        if \"depth\" in self:\n            drop_idx = self.data[\"depth\"] == 0\n        else:\n            drop_idx = self.data[\"log2\"] < min_cvg\n"),
     dict(name="shift applied to autosomes only", file=_C, old='            self.data["log2"] += shift', new='            self.data.loc[cnarr.data.index, "log2"] += shift'),
     dict(name="shift sign", file=_C, old="            shift = -estimator(values)", new="            shift = estimator(values)"),
     dict(name="skip_low ignored", file=_C, old="            self.drop_low_coverage(verbose=verbose) if skip_low else self\n", new="            self\n"),
